@@ -57,8 +57,10 @@ def specOne (nf : Nat) (m : Mode) (fn : Fn) (a b : Sample) : Val :=
   let n := timesOf b
   let tot := Spec.total nf o n
   match m, fn with
-  | .total, .percent => .num tot
-  | .total, .timesPercent => .tup [tot]
+  | .total, _ =>
+    -- elapsed total, and how far the two guest columns advanced (0 when not exposed)
+    .tup [tot, if 9 ≤ nf then Spec.adv o.guest n.guest else 0,
+          if 10 ≤ nf then Spec.adv o.guestNice n.guestNice else 0]
   | .rounded, .percent => .num (Spec.percent nf o n)
   | .exact, .percent => .num (Spec.percentExact nf o n)
   | .rounded, .timesPercent =>
@@ -71,9 +73,11 @@ def specCmp (nf : Nat) (m : Mode) (fn : Fn) : Stored → Stored → PRes Val
   | .one a, .one b => .ok (specOne nf m fn a b)
   | .many as, .many bs =>
     let vs := List.zipWith (specOne nf m fn) as bs
-    match fn with
-    | .percent => .ok (.nums (vs.map fun v => match v with | .num x => x | _ => 0))
-    | .timesPercent => .ok (.tups (vs.map fun v => match v with | .tup x => x | _ => []))
+    let asTups := Val.tups (vs.map fun v => match v with | .tup x => x | _ => [])
+    match m, fn with
+    | .total, _ => .ok asTups
+    | _, .percent => .ok (.nums (vs.map fun v => match v with | .num x => x | _ => 0))
+    | _, .timesPercent => .ok asTups
   | _, _ => .error .typeError
 
 def parseFn (s : String) : R Fn :=
